@@ -20,8 +20,10 @@ fn gen_objects(r: &mut Prng, count: usize, max_depth: usize) -> Vec<ExtObject> {
         .map(|_| {
             if r.chance(2, 3) {
                 let depth = r.below(max_depth as u64 + 1) as usize;
+                // one stack in four does not mark its bottom entry: it then ends with its object
+                let unterminated = r.chance(1, 4);
                 let entries: Vec<MplsEntry> = (0..depth)
-                    .map(|i| MplsEntry { label: r.below(1 << 20) as u32, exp: r.below(8) as u8, s: u8::from(i + 1 == depth), ttl: r.below(256) as u8 })
+                    .map(|i| MplsEntry { label: r.below(1 << 20) as u32, exp: r.below(8) as u8, s: u8::from(i + 1 == depth && !unterminated), ttl: r.below(256) as u8 })
                     .collect();
                 mpls_object(&entries)
             } else {
@@ -309,7 +311,7 @@ fn cfg_chan(c: &Cfg) -> trippy_core::verif::ChannelConfig {
 
 pub fn run(tier: Tier, seed: u64, only: Option<usize>) -> i32 {
     let mut rep = Report::new("C14", "exploration", tier, seed);
-    rep.rule = "message = ICMP time exceeded or destination unreachable (ICMPv4 and ICMPv6) built by the independent RFC 4884 / 4950 encoder: original datagram = a valid probe quoted to 28/48..1020/1232 octets, layout in {compliant (zero padded to >= 128 octets and a word boundary, length field set), legacy (exactly 128 octets, length field 0), length-only, none}, 0..8 extension objects (MPLS stacks of 0..16 entries with arbitrary label / EXP / S / TTL, unknown classes with 0..32 octets); each message is decoded by the four error views, the object / label-stack iterators, Extensions::try_from and the full receive path of two real channels (extension parsing on and off, 1024 octet receive buffer); then 1..3 byte corruptions and truncations of the same message go through every view (slices inside the message, no overlap, capped iteration, no panic); the set of RFC 4884 length field values exercised is listed; end to end: the real tracer over 254-hop paths whose routers and target attach extension objects in every layout (the C02 scenario runner restricted to the cells with extension parsing on): ProbeComplete.extensions must carry what was encoded; distinct by (family, protocol, shard)".into();
+    rep.rule = "message = ICMP time exceeded or destination unreachable (ICMPv4 and ICMPv6) built by the independent RFC 4884 / 4950 encoder: original datagram = a valid probe quoted to 28/48..1020/1232 octets, layout in {compliant (zero padded to >= 128 octets and a word boundary, length field set), legacy (exactly 128 octets, length field 0), length-only, none}, 0..8 extension objects (MPLS stacks of 0..16 entries with arbitrary label / EXP / TTL, the bottom-of-stack bit on the last entry or (one in four) on none, unknown classes with 0..32 octets); each message is decoded by the four error views, the object / label-stack iterators, Extensions::try_from and the full receive path of two real channels (extension parsing on and off, 1024 octet receive buffer); then 1..3 byte corruptions and truncations of the same message go through every view (slices inside the message, no overlap, capped iteration, no panic); the set of RFC 4884 length field values exercised is listed; end to end: the real tracer over 254-hop paths whose routers and target attach extension objects in every layout (the C02 scenario runner restricted to the cells with extension parsing on): ProbeComplete.extensions must carry what was encoded; distinct by (family, protocol, shard)".into();
     rep.assumptions = vec![
         "a message without RFC 4884 structure whose original datagram field is longer than 132 octets cannot be told from the legacy 128-octet convention (RFC 4884 5.5 relies on the extension checksum, which trippy does not verify): the 'no extension reported' clause abstains there".into(),
         "messages longer than the 1024 octet receive buffer are truncated by the socket: extension equality is only judged when the whole message fits".into(),
